@@ -42,6 +42,13 @@ type Store struct {
 	afterCl int
 	failN   map[int]error // transient error injected at call number n (call is not executed, store stays alive)
 	Log     []OpRec
+
+	// pause: delay injection INSIDE a storage call (before it executes): the next call matching pausePred
+	// announces itself on PausedCh and waits for Resume. Code that holds its lock across the call keeps
+	// everybody else out meanwhile; code that dropped the lock around its storage I/O lets other calls through.
+	pausePred func(kind string, sets, gets, dels int) bool
+	pausedCh  chan struct{}
+	resumeCh  chan struct{}
 }
 
 // New returns a store with the given initial content that dies at boundary crashAt (-1: never).
@@ -73,6 +80,43 @@ func Hash(m map[string][]byte) string {
 		h.Write([]byte{1})
 	}
 	return hex.EncodeToString(h.Sum(nil)[:8])
+}
+
+// PauseNext arms the delay: the next call for which pred holds blocks (before executing) until Resume.
+// Returns the channel on which that call announces itself.
+func (s *Store) PauseNext(pred func(kind string, sets, gets, dels int) bool) <-chan struct{} {
+	s.mu.Lock()
+	defer s.mu.Unlock()
+	s.pausePred = pred
+	s.pausedCh = make(chan struct{})
+	s.resumeCh = make(chan struct{})
+	return s.pausedCh
+}
+
+// Resume lets the paused call (if any) proceed and disarms the delay.
+func (s *Store) Resume() {
+	s.mu.Lock()
+	s.pausePred = nil
+	rc := s.resumeCh
+	s.resumeCh = nil
+	s.mu.Unlock()
+	if rc != nil {
+		close(rc)
+	}
+}
+
+// maybePause is called at the start of every storage call, without the store's lock.
+func (s *Store) maybePause(kind string, sets, gets, dels int) {
+	s.mu.Lock()
+	if s.pausePred == nil || s.dead || !s.pausePred(kind, sets, gets, dels) {
+		s.mu.Unlock()
+		return
+	}
+	s.pausePred = nil
+	pc, rc := s.pausedCh, s.resumeCh
+	s.mu.Unlock()
+	close(pc)
+	<-rc
 }
 
 func (s *Store) pre(kind string, sets, gets, dels int) error {
@@ -142,6 +186,7 @@ func (s *Store) FailAt(n int, err error) {
 func (s *Store) Reopen() { s.mu.Lock(); s.closed = 0; s.mu.Unlock() }
 
 func (s *Store) Get(_ context.Context, k string) ([]byte, error) {
+	s.maybePause("get", 0, 1, 0)
 	s.mu.Lock()
 	defer s.mu.Unlock()
 	if err := s.pre("get", 0, 1, 0); err != nil {
@@ -155,6 +200,7 @@ func (s *Store) Get(_ context.Context, k string) ([]byte, error) {
 }
 
 func (s *Store) Set(_ context.Context, k string, v []byte) error {
+	s.maybePause("set", 1, 0, 0)
 	s.mu.Lock()
 	defer s.mu.Unlock()
 	if err := s.pre("set", 1, 0, 0); err != nil {
@@ -165,6 +211,7 @@ func (s *Store) Set(_ context.Context, k string, v []byte) error {
 }
 
 func (s *Store) Delete(_ context.Context, k string) error {
+	s.maybePause("delete", 0, 0, 1)
 	s.mu.Lock()
 	defer s.mu.Unlock()
 	if err := s.pre("delete", 0, 0, 1); err != nil {
@@ -175,8 +222,6 @@ func (s *Store) Delete(_ context.Context, k string) error {
 }
 
 func (s *Store) Batch(_ context.Context, ops ...*storage.Operation) error {
-	s.mu.Lock()
-	defer s.mu.Unlock()
 	var sets, gets, dels int
 	for _, op := range ops {
 		switch op.Type {
@@ -188,6 +233,9 @@ func (s *Store) Batch(_ context.Context, ops ...*storage.Operation) error {
 			dels++
 		}
 	}
+	s.maybePause("batch", sets, gets, dels)
+	s.mu.Lock()
+	defer s.mu.Unlock()
 	if err := s.pre("batch", sets, gets, dels); err != nil {
 		return err
 	}
